@@ -53,7 +53,7 @@ def run(R, cfg, over=None):
 
         def init(ctx):
             st, pre = H.sym_state(ctx)
-            return st, list(pre) + [v.z() for _, v in H.inv(st, ctx) if not (v.conc and bool(v))] + [v.z() for _, v in (H.constraints(st) or [])]
+            return st, list(pre) + D.assumed_inv(R, H, ctx, H.inv(st, ctx), list(pre)) + [v.z() for _, v in (H.constraints(st) or [])]
         bmc.run(R, H, obl, legal_only=True, depth=2, init=init, emitted=True, prefix="emitted-mask play: ")
     if hasattr(H, "kernels_c06"):
         H.kernels_c06(R)
